@@ -35,6 +35,11 @@ def cells(tier):
     for old, new in [(2, 1), (1, 0), (3, 2)]:
         sc = scen(pool(old), [[A("A", old + 1)], [["set_size", new]], [cgroup("A"), A("B", 2)]], outcomes=["ret"])
         out.append(cell(f"{old}->{new} A{old + 1} resize|cgroupA,B2 (slot in transit)", sc, MON))
+    # ended tasks forgotten by flush() before the resize must not count as occupying the pool
+    for old in ["inf", 3]:
+        for seq in ([1], [2], [5, 2]):
+            sc = scen(pool(old), [[A("A", 3)], [FLUSH] + [["set_size", v] for v in seq] + [A("B", 2)]], outcomes=["ret"])
+            out.append(cell(f"{old}->{seq} A3|flush,resize,B2", sc, MON))
     sc = scen(pool(1, "SimpleTaskPool"), [[S("S", 3)], [["set_size", 2]], [["set_size", 0]]], outcomes=["ret"])
     out.append(cell("simple 1->2,->0 S3", sc, MON))
     if not q:
